@@ -294,3 +294,52 @@ def include(ctx, eng, prop, select, why):
     ctx.rule('from %s, %d clauses: %s' % (prop, n, why))
     ctx.count('clauses_shared_with_%s' % prop, n)
     return n
+
+
+def comp_terms(term, out=None):
+    """All ('comp', elt, iterable, conds, site) sub-terms of a term."""
+    if out is None:
+        out = []
+    if isinstance(term, tuple):
+        if term and term[0] == 'comp' and len(term) >= 4:
+            out.append(term)
+        for x in term:
+            if isinstance(x, tuple):
+                comp_terms(x, out)
+    return out
+
+
+def filter_conditions(path):
+    """The conditions under which elements of an iteration are selected on
+    this path, whichever way the selection is written: `if` tests inside
+    `for` loops (assume events) and the `if` clauses of comprehensions that
+    occur in any value computed on the path.  -> list of shown strings."""
+    conds = [show0(e.cond) for e in path.events if e.kind == 'assume']
+    seen = set()
+    vals = [path.value] if path.value is not None else []
+    for e in path.events:
+        for k in ('value', 'iterable', 'operand'):
+            v = e.get(k)
+            if isinstance(v, tuple):
+                vals.append(v)
+        for a in (e.get('args') or ()):
+            if isinstance(a, tuple):
+                vals.append(a)
+    for v in vals:
+        for c in comp_terms(v):
+            if c[4] in seen:
+                continue
+            seen.add(c[4])
+            for x in c[3]:
+                conds.extend(show0(a) for a in _conjuncts(x))
+    return conds
+
+
+def _conjuncts(t):
+    if isinstance(t, tuple) and t and t[0] == 'and' and len(t) == 2 and \
+            isinstance(t[1], tuple):
+        out = []
+        for x in t[1]:
+            out.extend(_conjuncts(x))
+        return out
+    return [t]
